@@ -1440,6 +1440,12 @@ class _ExprNorm(ast.NodeTransformer):
         for v in node.values:
             if isinstance(v, ast.FormattedValue) and v.conversion == -1 and v.format_spec is None and isinstance(v.value, ast.JoinedStr):
                 vals += v.value.values
+            elif isinstance(v, ast.FormattedValue) and v.conversion in (-1, 115) and v.format_spec is None and isinstance(v.value, ast.Call) \
+                    and isinstance(v.value.func, ast.Name) and v.value.func.id == "str" and len(v.value.args) == 1 and not v.value.keywords:
+                # f"{str(x)}" and f"{x!s}" are f"{x}"  (formatting with an empty spec is str() for everything that does not define __format__)
+                vals.append(ast.FormattedValue(value=v.value.args[0], conversion=-1, format_spec=None))
+            elif isinstance(v, ast.FormattedValue) and v.conversion == 115 and v.format_spec is None:
+                vals.append(ast.FormattedValue(value=v.value, conversion=-1, format_spec=None))
             else:
                 vals.append(v)
         node.values = vals
